@@ -2,11 +2,13 @@ package main
 
 import (
 	"context"
+	"crypto/md5"
 	"encoding/json"
 	"fmt"
 	"io"
 	"log/slog"
 	"math/big"
+	"net/http"
 	"net/http/httptest"
 	"os"
 	"path/filepath"
@@ -18,10 +20,12 @@ import (
 	"time"
 
 	awskinesis "github.com/aws/aws-sdk-go-v2/service/kinesis"
+	kinesistypes "github.com/aws/aws-sdk-go-v2/service/kinesis/types"
 	gproto "google.golang.org/protobuf/proto"
 	"google.golang.org/protobuf/types/known/timestamppb"
 	"reduction.dev/reduction-protocol/handlerpb"
 	"reduction.dev/reduction-protocol/jobconfigpb"
+	protocolkinesispb "reduction.dev/reduction-protocol/kinesispb"
 	"reduction.dev/reduction/batching"
 	"reduction.dev/reduction/clocks"
 	"reduction.dev/reduction/config"
@@ -689,29 +693,52 @@ type cutReport struct {
 }
 
 type cutEnv struct {
-	sr      *sourcerunner.SourceRunner
-	reader  *cutReader
-	job     *cutJob
-	ops     []*cutOp
-	reports []cutReport
-	cancel  context.CancelFunc
+	parseState  func([]byte) (split, pos int) // one entry of SplitStates
+	finalSplits func() []cutSplit             // the reader's splits with assigned and current position
+	sr          *sourcerunner.SourceRunner
+	reader      *cutReader
+	job         *cutJob
+	ops         []*cutOp
+	reports     []cutReport
+	cancel      context.CancelFunc
 }
 
 func newCutEnv(maxSize, delayMs, nOps int) *cutEnv {
-	c16Quiet.Do(func() { slog.SetDefault(slog.New(slog.NewTextHandler(io.Discard, nil))) })
 	e := &cutEnv{}
 	e.reader = &cutReader{consumed: make(chan int, 64), assigned: make(chan struct{}, 64), ckptTaken: make(chan struct{}, 1)}
-	e.job = &cutJob{reports: make(chan *jobpb.SourceRunnerCheckpointCompleteRequest, 64)}
-	nodes := make([]*jobpb.NodeIdentity, nOps)
+	e.parseState = func(b []byte) (int, int) {
+		var s, c int
+		fmt.Sscanf(string(b), "%d=%d", &s, &c)
+		return s, c
+	}
+	e.finalSplits = func() []cutSplit {
+		e.reader.mu.Lock()
+		defer e.reader.mu.Unlock()
+		var l []cutSplit
+		for _, s := range e.reader.splits {
+			l = append(l, *s)
+		}
+		return l
+	}
 	trig := &cutTrigger{}
 	e.reader.arm = trig.arm
+	e.reader.inject = func(id uint64) { go e.sr.HandleStartCheckpoint(context.Background(), id) }
+	e.start(maxSize, delayMs, nOps, e.reader, cutHandler{}, trig)
+	return e
+}
+
+// start builds the real SourceRunner around the given reader and deploys it to nOps recording operators.
+func (e *cutEnv) start(maxSize, delayMs, nOps int, reader connectors.SourceReader, handler proto.Handler, trig *cutTrigger) {
+	c16Quiet.Do(func() { slog.SetDefault(slog.New(slog.NewTextHandler(io.Discard, nil))) })
+	e.job = &cutJob{reports: make(chan *jobpb.SourceRunnerCheckpointCompleteRequest, 64)}
+	nodes := make([]*jobpb.NodeIdentity, nOps)
 	for i := 0; i < nOps; i++ {
 		e.ops = append(e.ops, &cutOp{id: fmt.Sprintf("op%d", i), barriers: make(chan uint64, 256), trig: trig})
 		nodes[i] = &jobpb.NodeIdentity{Id: e.ops[i].id, Host: "h"}
 	}
 	e.sr = sourcerunner.New(sourcerunner.NewParams{
 		Host:        "h",
-		UserHandler: cutHandler{},
+		UserHandler: handler,
 		Job:         e.job,
 		OperatorFactory: func(senderID string, node *jobpb.NodeIdentity) proto.Operator {
 			for _, o := range e.ops {
@@ -721,20 +748,20 @@ func newCutEnv(maxSize, delayMs, nOps int) *cutEnv {
 			}
 			return e.ops[0]
 		},
-		SourceReaderFactory: func(*jobconfigpb.Source) connectors.SourceReader { return e.reader },
+		SourceReaderFactory: func(*jobconfigpb.Source) connectors.SourceReader { return reader },
 		EventBatching:       batching.EventBatcherParams{MaxSize: maxSize, MaxDelay: time.Duration(delayMs) * time.Millisecond},
 	})
 	e.sr.Logger = slog.New(slog.NewTextHandler(io.Discard, nil))
-	e.reader.inject = func(id uint64) { go e.sr.HandleStartCheckpoint(context.Background(), id) }
 	ctx, cancel := context.WithCancel(context.Background())
 	e.cancel = cancel
 	go e.sr.Start(ctx)
 	e.sr.HandleDeploy(ctx, &workerpb.DeploySourceRunnerRequest{Operators: nodes, KeyGroupCount: 16, Sources: []*jobconfigpb.Source{{}}})
-	return e
 }
 
 func (e *cutEnv) close() {
-	e.reader.stopped.Store(true)
+	if e.reader != nil {
+		e.reader.stopped.Store(true)
+	}
 	e.sr.Halt()
 	e.cancel()
 }
@@ -750,8 +777,7 @@ func (e *cutEnv) awaitBarrier(id uint64) string {
 		}
 		rep = cutReport{id: id, snap: map[int]int{}}
 		for _, b := range r.SplitStates {
-			var s, c int
-			fmt.Sscanf(string(b), "%d=%d", &s, &c)
+			s, c := e.parseState(b)
 			rep.snap[s] = c
 		}
 	case <-time.After(c16Wait):
@@ -848,10 +874,8 @@ func (e *cutEnv) final() string {
 			}
 		}
 	}
-	e.reader.mu.Lock()
-	defer e.reader.mu.Unlock()
 	total := 0
-	for _, s := range e.reader.splits {
+	for _, s := range e.finalSplits() {
 		for i := s.init; i < s.cur; i++ {
 			if seen[[2]int{s.id, i}] != 1 {
 				return fmt.Sprintf("record %d:%d delivered %d times", s.id, i, seen[[2]int{s.id, i}])
@@ -1505,6 +1529,346 @@ func genJob(r *lib.Rng) lib.Case {
 }
 
 // ---------------------------------------------------------------------------------------------------------------
+// the barrier cut with the real Kinesis SourceReader (against kinesisfake) under the real ReadSourceChannel and
+// SourceRunner, one gated ReadEvents per `kread`, with GetRecords requests that fail with a retryable error
+
+type gateResult struct {
+	n   int
+	err error
+}
+
+// gateReader lets the real reader's ReadEvents run only when the harness hands out a permit.
+type gateReader struct {
+	inner    connectors.SourceReader
+	permits  chan struct{}
+	results  chan gateResult
+	assigned chan struct{}
+	stopped  atomic.Bool
+}
+
+func (g *gateReader) ReadEvents() ([][]byte, error) {
+	select {
+	case <-g.permits:
+		ev, err := g.inner.ReadEvents()
+		g.results <- gateResult{len(ev), err}
+		return ev, err
+	default:
+	}
+	if g.stopped.Load() {
+		return nil, connectors.ErrEndOfInput
+	}
+	time.Sleep(200 * time.Microsecond)
+	return nil, nil
+}
+
+func (g *gateReader) AssignSplits(splits []*workerpb.SourceSplit) error {
+	err := g.inner.AssignSplits(splits)
+	g.assigned <- struct{}{}
+	return err
+}
+
+func (g *gateReader) Checkpoint() [][]byte { return g.inner.Checkpoint() }
+
+// kreadHandler keys every Kinesis record by its data ("shard:position").
+type kreadHandler struct{ cutHandler }
+
+func (kreadHandler) KeyEventBatch(ctx context.Context, events [][]byte) ([][]*handlerpb.KeyedEvent, error) {
+	out := make([][]*handlerpb.KeyedEvent, len(events))
+	for i, ev := range events {
+		var rec protocolkinesispb.Record
+		if err := gproto.Unmarshal(ev, &rec); err != nil {
+			return nil, err
+		}
+		out[i] = []*handlerpb.KeyedEvent{{Key: rec.Data, Value: rec.Data, Timestamp: timestamppb.New(time.Unix(1000, 0))}}
+	}
+	return out, nil
+}
+
+// c16KeyForShard finds a partition key whose MD5 lands in root shard `shard` of `count` (kinesisfake.pickShard).
+func c16KeyForShard(count, shard int) string {
+	w := new(big.Int).Div(c16Max, big.NewInt(int64(count)))
+	for j := 0; ; j++ {
+		key := fmt.Sprintf("k%d", j)
+		h := md5.Sum([]byte(key))
+		idx := int(new(big.Int).Div(new(big.Int).SetBytes(h[:]), w).Int64())
+		if idx >= count {
+			idx = count - 1
+		}
+		if idx == shard {
+			return key
+		}
+	}
+}
+
+func implKRead(c lib.Case, maxSize, delayMs, nOps, shards, limit int) []string {
+	c16Quiet.Do(func() { slog.SetDefault(slog.New(slog.NewTextHandler(io.Discard, nil))) })
+	out := make([]string, 0, len(c.Ops))
+	fail := func(msg string) []string {
+		for len(out) < len(c.Ops) {
+			out = append(out, "setup-error "+msg)
+		}
+		return out
+	}
+	srv, fk := kinesisfake.StartFake()
+	defer srv.Close()
+	fk.SetGetRecordsLimit(limit)
+	var failIn atomic.Int64 // the failIn-th GetRecords request from now is answered with a throttling error
+	inner := srv.Config.Handler
+	srv.Config.Handler = http.HandlerFunc(func(w http.ResponseWriter, r *http.Request) {
+		if strings.HasSuffix(r.Header.Get("x-amz-target"), ".GetRecords") && failIn.Load() > 0 {
+			if failIn.Add(-1) == 0 {
+				io.Copy(io.Discard, r.Body)
+				w.Header().Set("Content-Type", "application/x-amz-json-1.1")
+				w.WriteHeader(http.StatusBadRequest)
+				w.Write([]byte(`{ "__type": "ProvisionedThroughputExceededException", "message": "Rate exceeded for shard" }`))
+				return
+			}
+		}
+		inner.ServeHTTP(w, r)
+	})
+	admin := kinesis.NewLocalClient(srv.URL)
+	ctx := context.Background()
+	name := "s"
+	n32 := int32(shards)
+	if _, err := admin.CreateStream(ctx, &awskinesis.CreateStreamInput{StreamName: &name, ShardCount: &n32}); err != nil {
+		return fail(err.Error())
+	}
+	d, err := admin.DescribeStream(ctx, &awskinesis.DescribeStreamInput{StreamName: &name})
+	if err != nil {
+		return fail(err.Error())
+	}
+	arn := *d.StreamDescription.StreamARN
+
+	gate := &gateReader{permits: make(chan struct{}, 4), results: make(chan gateResult, 4), assigned: make(chan struct{}, 16)}
+	gate.inner = kinesis.NewSourceReader(kinesis.SourceConfig{StreamARN: arn, Client: kinesis.NewLocalClient(srv.URL)},
+		connectors.SourceReaderHooks{NotifySplitsFinished: func([]string) {}})
+	inits := map[int]int{}
+	var order []int
+	e := &cutEnv{}
+	e.parseState = func(b []byte) (int, int) {
+		var st kinesispb.Shard
+		if gproto.Unmarshal(b, &st) != nil {
+			return -1, 0
+		}
+		pos := 0
+		if st.Cursor != "" {
+			seq, _ := strconv.Atoi(st.Cursor)
+			pos = seq + 1 // the position behind the last record read
+		}
+		return c16ShardNum(st.ShardId), pos
+	}
+	e.finalSplits = func() []cutSplit {
+		// the positions of the last report (taken by `end`)
+		var l []cutSplit
+		if len(e.reports) == 0 {
+			return nil
+		}
+		last := e.reports[len(e.reports)-1]
+		for _, s := range order {
+			l = append(l, cutSplit{s, inits[s], last.snap[s]})
+		}
+		return l
+	}
+	e.start(maxSize, delayMs, nOps, gate, kreadHandler{}, nil)
+	defer func() { gate.stopped.Store(true); e.close() }()
+
+	put := map[int]int{}
+	started := false
+	for _, op := range c.Ops {
+		if c16Abandoned(out) {
+			out = append(out, "abandoned")
+			continue
+		}
+		f := strings.Fields(op)
+		switch f[0] {
+		case "put":
+			sh, _ := strconv.Atoi(f[1])
+			n, _ := strconv.Atoi(f[2])
+			key := c16KeyForShard(shards, sh)
+			var recs []kinesistypes.PutRecordsRequestEntry
+			for i := 0; i < n; i++ {
+				recs = append(recs, kinesistypes.PutRecordsRequestEntry{Data: []byte(fmt.Sprintf("%d:%d", sh, put[sh])), PartitionKey: &key})
+				put[sh]++
+			}
+			if n > 0 {
+				if _, err := admin.PutRecords(ctx, &awskinesis.PutRecordsInput{StreamARN: &arn, Records: recs}); err != nil {
+					out = append(out, "setup-error "+err.Error())
+					continue
+				}
+			}
+			out = append(out, "ok")
+		case "assign":
+			var splits []*workerpb.SourceSplit
+			for _, p := range c16List(f[1]) {
+				kv := strings.SplitN(p, "@", 2)
+				sh, _ := strconv.Atoi(kv[0])
+				var cur []byte
+				inits[sh] = 0
+				if kv[1] != "-" {
+					seq, _ := strconv.Atoi(kv[1])
+					cur = []byte(kv[1])
+					inits[sh] = seq + 1
+				}
+				order = append(order, sh)
+				splits = append(splits, &workerpb.SourceSplit{SplitId: c16ShardID(sh), SourceId: "s", Cursor: cur})
+			}
+			if err := e.sr.HandleAssignSplits(splits); err != nil {
+				out = append(out, "error")
+				continue
+			}
+			select {
+			case <-gate.assigned:
+				out = append(out, "ok")
+				started = started || len(splits) > 0
+			case <-time.After(c16Wait):
+				out = append(out, "timeout")
+			}
+		case "fail":
+			k, _ := strconv.Atoi(f[1])
+			failIn.Store(int64(k))
+			out = append(out, "ok")
+		case "kread", "kreadm":
+			res := gateResult{}
+			if started {
+				gate.permits <- struct{}{}
+				select {
+				case res = <-gate.results:
+				case <-time.After(c16Wait):
+					out = append(out, "timeout-read")
+					continue
+				}
+			}
+			switch {
+			case f[0] == "kread":
+				out = append(out, "ok")
+			case res.err != nil && connectors.IsRetryable(res.err):
+				out = append(out, "err")
+			case res.err != nil:
+				out = append(out, "terminal "+res.err.Error())
+			default:
+				out = append(out, fmt.Sprintf("n=%d", res.n))
+			}
+		case "kbarrier", "kbarrierm":
+			id, _ := strconv.ParseUint(f[1], 10, 64)
+			e.sr.HandleStartCheckpoint(ctx, id)
+			line := e.awaitBarrier(id)
+			if f[0] == "kbarrierm" || !strings.HasPrefix(line, "st ") {
+				out = append(out, line)
+				continue
+			}
+			// the statement of cursor_matches_cut_kinesis on the implementation: per reported shard, the records
+			// received ahead of the barrier are exactly those from its assigned position up to the reported one
+			out = append(out, kreadVerdict(e, id, inits))
+		case "end":
+			out = append(out, e.final())
+		default:
+			out = append(out, "bad-op")
+		}
+	}
+	return out
+}
+
+func kreadVerdict(e *cutEnv, id uint64, inits map[int]int) string {
+	rep := e.reports[len(e.reports)-1]
+	got := map[int]map[int]int{}
+	for _, o := range e.ops {
+		o.mu.Lock()
+		for _, ev := range o.events {
+			if ev.barrier == id {
+				break
+			}
+			if ev.barrier == 0 {
+				if got[ev.split] == nil {
+					got[ev.split] = map[int]int{}
+				}
+				got[ev.split][ev.idx]++
+			}
+		}
+		o.mu.Unlock()
+	}
+	var shards []int
+	for s := range got {
+		shards = append(shards, s)
+	}
+	for s := range rep.snap {
+		if got[s] == nil {
+			shards = append(shards, s)
+		}
+	}
+	sort.Ints(shards)
+	for _, s := range shards {
+		pos, ok := rep.snap[s]
+		if !ok {
+			return fmt.Sprintf("records of shard %d ahead of barrier %d which does not report it", s, id)
+		}
+		for i := inits[s]; i < pos; i++ {
+			if got[s][i] != 1 {
+				return fmt.Sprintf("shard %d: position %d reported at barrier %d, but record %d was received %d times ahead of it", s, pos, id, i, got[s][i])
+			}
+		}
+		for i := range got[s] {
+			if i < inits[s] || i >= pos {
+				return fmt.Sprintf("shard %d: record %d received ahead of barrier %d with position %d", s, i, id, pos)
+			}
+		}
+	}
+	return "ok"
+}
+
+func genKRead(r *lib.Rng) lib.Case {
+	shards := r.Range(2, 3)
+	limit := r.Range(1, 5)
+	c := lib.Case{Header: fmt.Sprintf("M C16 kread %d %d %d %d %d", lib.Pick(r, []int{1, 2, 4}), lib.Pick(r, []int{1, 2}), r.Range(1, 2), shards, limit), Tags: []string{"kread"}}
+	mech := r.Chance(1, 3) // print what the round-robin reader does (mechanism) instead of the verdicts
+	rd, bar := "kread", "kbarrier"
+	if mech {
+		rd, bar = "kreadm", "kbarrierm"
+		c.Tags = append(c.Tags, "kread-mech")
+	}
+	have := make([]int, shards)
+	for s := 0; s < shards; s++ {
+		have[s] = r.Range(0, 12)
+		c.Ops = append(c.Ops, fmt.Sprintf("put %d %d", s, have[s]))
+	}
+	var as []string
+	for s := 0; s < shards; s++ {
+		if s < 2 || r.Chance(2, 3) {
+			cur := "-"
+			if r.Chance(1, 5) && have[s] > 0 {
+				cur = strconv.Itoa(r.Intn(min(have[s], 3))) // resume after an existing record
+			}
+			as = append(as, fmt.Sprintf("%d@%s", s, cur))
+		}
+	}
+	if r.Chance(1, 4) {
+		c.Ops = append(c.Ops, rd) // before any shard is assigned
+	}
+	c.Ops = append(c.Ops, "assign "+strings.Join(as, ","))
+	b, fails := 0, 0
+	for n := r.Range(6, 14); n > 0; n-- {
+		switch k := r.Intn(10); {
+		case k < 5:
+			c.Ops = append(c.Ops, rd)
+		case k < 7:
+			b++
+			c.Ops = append(c.Ops, fmt.Sprintf("%s %d", bar, b))
+		case k < 9:
+			if fails < 2 {
+				fails++
+				// the k-th GetRecords from now is throttled: also one that is not the first of a polling round
+				c.Ops = append(c.Ops, fmt.Sprintf("fail %d", r.Range(1, 3)), rd, rd)
+				c.Tags = append(c.Tags, "kread-fail")
+			}
+		default:
+			c.Ops = append(c.Ops, fmt.Sprintf("put %d %d", r.Intn(shards), r.Range(1, 6)))
+		}
+	}
+	b++
+	c.Ops = append(c.Ops, rd, fmt.Sprintf("%s %d", bar, b), "end")
+	return c
+}
+
+// ---------------------------------------------------------------------------------------------------------------
 // Partition, embedded and httpapi splitters, uniformlyAssignShard
 
 func checkPartitionExact(n, groups int) string {
@@ -2059,7 +2423,7 @@ func propC16() *lib.Prop {
 	return &lib.Prop{
 		ID:   "C16",
 		Corr: "Model/Splits.lean ↔ kinesis.SourceSplitter+SplitTracker (against kinesisfake), uniformlyAssignShard, embedded/httpapi splitters, sliceu.Partition, SourceRunner.processEvents (barrier cut with a scripted reader)",
-		Rule: "cases: kin = op sequences (split/merge of the stream, discovery ticks, finish notifications in any order, checkpoint, restore) on the real Kinesis splitter; cut = assign/read/barrier scripts (reads of up to 2000 records; checkpoint requests arriving inside a read: before/after the cursors move and while its records are being emitted, triggered by the k-th record arriving downstream) on the real SourceRunner with a scripted reader; job = real jobs.Job + snapshots.Store + httpapi splitter with a storage location that holds a snapshot write until the replacement operator is being deployed (checkpoint id the operators restore vs position the split resumes from); ecut = the real embedded SourceReader free-running under the real SourceRunner with barriers at random moments (only the statement of cursor_matches_cut is observed); misc = Partition/embedded/httpapi/uniformlyAssignShard blocks. non-trivial = kin case with a restore from a checkpoint after the stream was resharded, cut case with a barrier after a read, or misc block",
+		Rule: "cases: kin = op sequences (split/merge of the stream, discovery ticks, finish notifications in any order, checkpoint, restore) on the real Kinesis splitter; cut = assign/read/barrier scripts (reads of up to 2000 records; checkpoint requests arriving inside a read: before/after the cursors move and while its records are being emitted, triggered by the k-th record arriving downstream) on the real SourceRunner with a scripted reader; job = real jobs.Job + snapshots.Store + httpapi splitter with a storage location that holds a snapshot write until the replacement operator is being deployed (checkpoint id the operators restore vs position the split resumes from); kread = the real Kinesis SourceReader (kinesisfake) under the real ReadSourceChannel and SourceRunner, one gated ReadEvents per op, GetRecords requests failing with a retryable throttling error at chosen points, positions at barriers vs records received ahead of them; ecut = the real embedded SourceReader free-running under the real SourceRunner with barriers at random moments (only the statement of cursor_matches_cut is observed); misc = Partition/embedded/httpapi/uniformlyAssignShard blocks. non-trivial = kin case with a restore from a checkpoint after the stream was resharded, cut case with a barrier after a read, or misc block",
 		NumCases: func(tier string) int {
 			if tier == "thorough" {
 				return 8000
@@ -2080,6 +2444,11 @@ func propC16() *lib.Prop {
 			// a publication lands between assembly.Deploy and sourceSplitter.Start of the redeploy
 			cs = append(cs, lib.Case{Header: "M C16 job", Tags: []string{"job", "job-race"},
 				Ops: []string{"deploy", "ckpt 10", "ckpt 20 hold", "fail race", "ckpt 33", "fail", "ckpt 40 hold", "fail", "release", "fail"}})
+			// throttled GetRecords on a shard that is not the first one of a polling round
+			cs = append(cs, lib.Case{Header: "M C16 kread 4 2 1 2 5", Tags: []string{"kread", "kread-fail"},
+				Ops: []string{"put 0 12", "put 1 9", "assign 0@-,1@-", "fail 2", "kread", "kread", "kread", "kbarrier 1", "kread", "kread", "fail 1", "kread", "kbarrier 2", "kread", "kread", "kread", "kread", "kbarrier 3", "end"}})
+			cs = append(cs, lib.Case{Header: "M C16 kread 1 1 2 2 3", Tags: []string{"kread", "kread-fail", "kread-mech"},
+				Ops: []string{"put 0 7", "put 1 4", "kreadm", "assign 0@-,1@1", "kreadm", "fail 1", "kreadm", "kreadm", "kbarrierm 1", "fail 2", "kreadm", "kreadm", "kreadm", "kbarrierm 2", "put 1 3", "kreadm", "kreadm", "kreadm", "kbarrierm 3", "end"}})
 			// large reads with the checkpoint requested while they are being emitted
 			cs = append(cs, lib.Case{Header: "M C16 cut 1 1 2", Tags: []string{"cut", "cut-bigread"},
 				Ops: []string{"assign 0@0,1@7", "readbar3 1 1 0*1300", "readbar2 2 1*600,0*300,1*400", "readbar3 3 500 0*200,1*901", "read 0*700", "barrier 4", "readbar1 5 1*502", "end"}})
@@ -2107,10 +2476,12 @@ func propC16() *lib.Prop {
 		},
 		Gen: func(r *lib.Rng, tier string, i int) lib.Case {
 			switch k := r.Intn(20); {
-			case k < 12:
+			case k < 11:
 				return genKin(r, tier)
-			case k < 16:
+			case k < 15:
 				return genCut(r, tier)
+			case k < 16:
+				return genKRead(r)
 			case k < 17:
 				return genECut(r)
 			case k < 18:
@@ -2134,6 +2505,8 @@ func propC16() *lib.Prop {
 				return c16Retry(func() []string { return implCut(c, a[0], a[1], a[2]) })
 			case mode == "job":
 				return c16Retry(func() []string { return implJob(c) })
+			case mode == "kread" && len(a) == 5:
+				return c16Retry(func() []string { return implKRead(c, a[0], a[1], a[2], a[3], a[4]) })
 			case mode == "ecut" && len(a) == 5:
 				return c16Retry(func() []string { return implECut(c, a[0], a[1], a[2], a[3], a[4]) })
 			default:
@@ -2152,6 +2525,13 @@ func propC16() *lib.Prop {
 				return false
 			case "ecut":
 				return true
+			case "kread":
+				for _, t := range c.Tags {
+					if t == "kread-fail" {
+						return true
+					}
+				}
+				return false
 			case "job":
 				for _, t := range c.Tags {
 					if t == "job-race" {
@@ -2175,7 +2555,8 @@ func propC16() *lib.Prop {
 		},
 		// which runner gets which split is mechanism; that every split has exactly one is checked by partchk / embchk
 		MObs: func(op string) bool {
-			return strings.HasPrefix(op, "uidx") || strings.HasPrefix(op, "part ") || strings.HasPrefix(op, "emb ")
+			return strings.HasPrefix(op, "uidx") || strings.HasPrefix(op, "part ") || strings.HasPrefix(op, "emb ") ||
+				strings.HasPrefix(op, "kreadm") || strings.HasPrefix(op, "kbarrierm")
 		},
 	}
 }
